@@ -75,6 +75,25 @@ func drawXZCase(t *rapid.T) caseXZ {
 		}
 	}
 	c.Data = gen.DrawRecipe(t, 5, int(maxTotal), classes...)
+	// shapes that need several chunk kinds inside one block: incompressible
+	// runs long enough for two or more uncompressed chunks, followed (or
+	// interleaved) by compressible data
+	if maxTotal >= 400000 {
+		rnd := func(lo, hi int) gen.Seg {
+			return gen.Seg{Kind: "random", Len: rapid.IntRange(lo, hi).Draw(t, "rawlen"), Seed: rapid.Uint64().Draw(t, "rawseed")}
+		}
+		txt := func() gen.Seg {
+			return gen.Seg{Kind: "text", K: 4, Len: rapid.IntRange(300, 30000).Draw(t, "txtlen"), Seed: rapid.Uint64().Draw(t, "txtseed")}
+		}
+		switch rapid.IntRange(0, 15).Draw(t, "shape") {
+		case 0:
+			c.Data = gen.Recipe{rnd(131072, 200000), txt()}
+		case 1:
+			c.Data = gen.Recipe{txt(), rnd(66000, 70000), txt(), rnd(66000, 70000), txt()}
+		case 2:
+			c.Data = gen.Recipe{rnd(1, 3000), txt(), rnd(1, 3000), txt()}
+		}
+	}
 	if c.Cfg.Matcher == 1 {
 		c.Data = clampForBT(c.Data, 12000)
 	}
